@@ -8,7 +8,8 @@ from .. import common
 from ..common import Suite, Finding, fhex, vhex, Reader, lean_batch
 from ..probes import quiet
 
-TRUSTED_EXTRA = ["C17: the gradient theorem is stated where every event is off every station (distance > 0) and the velocity is non-zero"]
+TRUSTED_EXTRA = ["C17: the derivative theorem is stated where every event is off every station (distance > 0, where the misfit is differentiable) and the velocity is non-zero; "
+                 "at a coincident event/station pair the model drops the undefined direction term as the code's nansum does (coincident_station_term_dropped) and finiteness is checked on the implementation"]
 ASSUMPTIONS = ["missing observations are NaN in the data array (model: `none`)"]
 
 
@@ -78,7 +79,7 @@ def run(tier, seed):
     thorough = tier == "thorough"
     findings = []
     st = Suite("C17.eval", "random station geometries, 1-4 events, 1-8 stations, scalar / per-datum sigma, random patterns of missing (NaN) observations, "
-               "fixed or inferred velocity, 2D and 3D: forward_vector(), misfit(), gradient() vs the Lean model at the true model and at perturbed models; "
+               "fixed or inferred velocity, 2D and 3D, models with an event exactly on a station: forward_vector(), misfit(), gradient() vs the Lean model at the true model and at perturbed models; "
                "1e-9 relative; non-trivial = >= 2 events and >= 1 missing pick")
     reqs, metas = [], []
     for i in range(1600 if thorough else 420):
@@ -88,16 +89,27 @@ def run(tier, seed):
         m = truth.copy() if at_truth else truth + np.array([[rnd.gauss(0, 0.5)] for _ in range(truth.size)])
         if desc["infer_velocity"]:
             m[-1, 0] = max(0.3, m[-1, 0])
+        on_station = rnd.random() < 0.2
+        if on_station:
+            at_truth = False
+            # a legal model in which an event sits exactly on a station (e.g. events initialised at the station of the earliest pick)
+            e = rnd.randrange(desc["events"])
+            s_ = rnd.randrange(desc["stations"])
+            coords = [geo["rx"][0, s_]] + ([geo["ry"][0, s_]] if dim == 3 else []) + [geo["rz"][0, s_]]
+            for c, val in enumerate(coords):
+                m[e * (dim + 1) + c, 0] = val
         with np.errstate(all="ignore"), quiet():
             mis = float(obj.misfit(m.copy()))
             g = np.array(obj.gradient(m.copy()), dtype=float)
             fw = np.array(obj.forward_vector(m.copy()), dtype=float)
-        stim = {"config": desc, "m": m.ravel().tolist(), "at_truth": at_truth}
+        stim = {"config": desc, "m": m.ravel().tolist(), "at_truth": at_truth, "event_on_station": on_station}
         st.case(stim, nontrivial=(desc["events"] >= 2 and desc["missing"] >= 1),
                 sample={"config": desc, "misfit": mis} if len(st.samples) < 3 else None)
         st.count(f"dim={dim}")
         st.count(f"missing={'yes' if desc['missing'] else 'no'}")
         st.count(f"velocity={'inferred' if desc['infer_velocity'] else 'fixed'}")
+        if on_station:
+            st.count("an event exactly on a station")
         problems = []
         if g.shape != (truth.size, 1):
             problems.append(f"gradient shape {g.shape}")
